@@ -494,6 +494,35 @@ def run_cache(facts, out):
             if f['ty']['s'] == 'std::option::Option<%s>' % curve:
                 owner, cache_field = p, f['name']
     out.anchor('CI', 'struct owning Option<Curve>', owner is not None, str(owner))
+    if owner is not None:
+        # the cache is not part of the value: comparing / hashing / ordering the owner must not look at it, or two equal
+        # paths differ by whether (and through which API) their curve was computed
+        for tr in ('std::cmp::PartialEq', 'std::hash::Hash', 'std::cmp::PartialOrd', 'std::cmp::Ord'):
+            for p_, b_ in facts.bodies.items():
+                if not p_.startswith('<%s as %s' % (owner, tr)):
+                    continue
+                reads = []
+                for blk in b_.blocks:
+                    if blk.get('cleanup'):
+                        continue
+                    for st in blk['st']:
+                        if st['k'] != 'assign':
+                            continue
+                        rv = st['rv']
+                        pls = [rv['pl']] if rv['k'] in ('ref', 'rawptr', 'discr') and 'pl' in rv else []
+                        for o in ([rv.get('op')] if rv.get('op') else []) + [rv.get('a'), rv.get('b')] + list(rv.get('ops', [])):
+                            if isinstance(o, dict):
+                                pl = op_place(o)
+                                if pl is not None:
+                                    pls.append(pl)
+                        for pl in pls:
+                            if any(e['k'] == 'field' and e.get('n') == cache_field for e in pl['p']):
+                                reads.append(st)
+                ok = not reads
+                out.add('CI', p_, 'cache-not-compared', loc_of(reads[0]['sp']) if reads else '%s:%d' % (b_.file, b_.line), ok,
+                        '' if ok else ('`%s` reads the cached curve `%s`: two paths with the same mode, control points and requested '
+                                       'length compare differently depending on whether their curve was computed' % (p_, cache_field)),
+                        ordinal=False)
     if owner is None:
         return
     # PV: closed world of this rule -- no field of the cache owner is reachable from outside the
@@ -616,7 +645,7 @@ def _trace_field(body, pl, owner, depth=0, via=None):
     if depth > 12:
         return None
     l = pl['l']
-    if l <= body.argc:
+    if 0 < l <= body.argc:
         return None
     defs = body.defs.get(l, [])
     if len(defs) != 1:
@@ -635,11 +664,45 @@ def _trace_field(body, pl, owner, depth=0, via=None):
     if s['args']:
         p2 = op_place(s['args'][0])
         if p2 is not None:
+            c = callee_of(s)
+            # a trivial getter of the owner (`self.mode()`, `self.control_points()`): the field it returns
+            fx = getattr(body, 'facts', None)
+            if c and fx is not None and len(s['args']) == 1 and dict.__contains__(fx.bodies, c['path']):
+                cb = fx.bodies[c['path']]
+                if cb.argc == 1 and (cb.locals[1].get('to_adt') == owner or cb.locals[1].get('adt') == owner):
+                    hops2 = []
+                    g = _trace_field(cb, {'l': 0, 'p': []}, owner, depth + 1, hops2)
+                    if g and all(h in NEUTRAL_HOPS for h in hops2):
+                        root = _trace_field(body, p2, owner, depth + 1, None)
+                        base_is_owner = root is None and _is_owner_value(body, p2, owner)
+                        if base_is_owner:
+                            return g
             if via is not None:
-                c = callee_of(s)
                 via.append(c['name'] if c else '?')
             return _trace_field(body, p2, owner, depth + 1, via)
     return None
+
+
+def _is_owner_value(body, pl, owner, depth=0):
+    """the place is (a reborrow / copy of) the owner value itself, e.g. `&*self`"""
+    l = pl['l']
+    if any(e['k'] == 'field' for e in pl['p']):
+        return False
+    ty = body.locals[l]
+    if ty.get('to_adt') == owner or ty.get('adt') == owner:
+        return True
+    if depth > 6 or l <= body.argc:
+        return False
+    defs = body.defs.get(l, [])
+    if len(defs) != 1 or defs[0][2] != 'assign':
+        return False
+    rv = defs[0][3]['rv']
+    if rv['k'] in ('ref', 'rawptr'):
+        return _is_owner_value(body, rv['pl'], owner, depth + 1)
+    if rv['k'] in ('use', 'cast'):
+        p2 = op_place(rv['op'])
+        return p2 is not None and _is_owner_value(body, p2, owner, depth + 1)
+    return False
 
 
 def _only_shared_uses(body, l):
@@ -760,21 +823,45 @@ def cache_kill_blocks(facts, body, owner, cache_field):
         t = blk['term']
         if t['k'] == 'call':
             c = callee_of(t)
-            if c and c['local'] and c['path'] in facts.bodies and c['path'] != body.path:
+            if _take_of_cache(body, t, owner, cache_field):
+                pts.append((bi, 'term'))
+            elif c and c['local'] and c['path'] in facts.bodies and c['path'] != body.path:
                 cb = facts.bodies[c['path']]
                 if _kills_on_all_paths(cb, owner, cache_field):
                     pts.append((bi, 'term'))
     return pts
 
 
-def _kills_on_all_paths(cb, owner, cache_field):
-    # every return is dominated by a block containing a None-assignment to the cache
+def _take_of_cache(body, t, owner, cache_field):
+    """`self.cache.take()` / `mem::take(&mut self.cache)`: the cache is None afterwards"""
+    c = callee_of(t)
+    if not c or not t['args']:
+        return False
+    if c['path'] not in ('std::option::Option::<T>::take', 'std::mem::take', 'core::mem::take'):
+        return False
+    pl = op_place(t['args'][0])
+    return pl is not None and _trace_field(body, pl, owner) == cache_field
+
+
+def _kills_on_all_paths(cb, owner, cache_field, depth=0):
+    # every return is dominated by a block containing a None-assignment to the cache (or a `take()` of it, or a call of
+    # a function that itself does so on all paths)
     kills = set()
     for bi, blk in enumerate(cb.blocks):
         for s in blk['st']:
             if s['k'] == 'assign' and _owner_field(cb, s['pl'], owner) == cache_field \
                     and _is_none_rvalue(cb, s['rv']) and s['pl']['l'] == 1:
                 kills.add(bi)
+        t = blk['term']
+        if t['k'] == 'call' and not blk.get('cleanup'):
+            if _take_of_cache(cb, t, owner, cache_field):
+                kills.add(bi)
+            elif depth < 2:
+                c = callee_of(t)
+                fx = getattr(cb, 'facts', None)
+                if c and c.get('local') and fx is not None and dict.__contains__(fx.bodies, c['path']) and c['path'] != cb.path:
+                    if _kills_on_all_paths(fx.bodies[c['path']], owner, cache_field, depth + 1):
+                        kills.add(bi)
     if not kills:
         return False
     for r in cb.returns():
